@@ -478,6 +478,13 @@ def run_suite(suite, scratch, logdir, jobs=None):
                     src = os.path.join(work, h.name + suf)
                     if os.path.exists(src) and os.path.getsize(src) < 50_000_000:
                         shutil.copy(src, os.path.join(logdir, h.name + suf))
+            # a goto binary is ~10 MB: with thousands of programs per suite they must not pile up in the scratch dir
+            if not os.environ.get("VERIF_KEEP_SCRATCH"):
+                for suf in (".goto", ".cbmc.log", ".trace.log", ".goto.log"):
+                    try:
+                        os.remove(os.path.join(work, h.name + suf))
+                    except OSError:
+                        pass
             results.append(r)
     results.sort(key=lambda r: [h.name for h in suite.harnesses].index(r["harness"]))
     return results, build_secs
